@@ -1,7 +1,7 @@
 (* C08 proofs, part 5: the statements of Spec.v. *)
 From Coq Require Import List Arith NArith Bool Lia.
 From GV Require Import Common.Outcome Base.Grammar Base.Analyses LR.Automaton LR.Validator LR.Spec LR.Sound.
-From GV Require Import C08.Model C08.Spec C08.Forest C08.Loops C08.Spans C08.Sim.
+From GV Require Import C08.Model C08.Spec C08.Forest C08.Loops C08.Spans C08.Sim C08.Lockstep.
 Import ListNotations.
 
 (* ---- without recovery, validated table: any span policy ------------------------------------ *)
@@ -179,6 +179,15 @@ Proof.
   destruct (span_is_yield_hull g A Hwf HV prm lexemes fuel k log errs Hrng Hno H _ _ Hin) as (c & Hc & Hsp).
   destruct n as [[j p] kids]. cbn [label_of fst snd] in *. exists c. split; [exact Hc|].
   rewrite Hsp. apply hull_or_weak.
+Qed.
+
+Lemma fixed_changes_only_spans : fixed_changes_only_spans_stmt.
+Proof.
+  intros g A prm lexemes fuel rec oracle r r' H1 H2.
+  unfold run_actions_rec, run_actions_fixed_rec, parse in H1, H2.
+  eapply (rel_lr _ _ sp_shift_cur sp_shift_fix sp_reduce_cur sp_reduce_fix
+            sp_reduce_cur_nofuel sp_reduce_fix_nofuel g A prm lexemes); [|exact H1|exact H2].
+  unfold rel. cbn. auto.
 Qed.
 
 (* ---- the refutation for today's code ------------------------------------------------------------ *)
